@@ -122,9 +122,10 @@ package httpserver
 //   - a request whose only client information is not an address (X-Real-IP:
 //     unknown): 403 and the unfiltered answer are both accepted, but the answer
 //     must equal the cache-less one (C05.non-address-client-answer-depends-on-history).
-//   - behind const c05MultiLineXFFPrivateFirst (OFF): X-Forwarded-For in two
-//     header lines with only private hops in the first; fires on the unchanged
-//     tree as C05.client-in-later-x-forwarded-for-line-ignored (reported).
+//   - X-Forwarded-For in two header lines with only private hops in the first
+//     (const c05MultiLineXFFPrivateFirst, on): the client is the first public
+//     hop of the joined list; class C05.client-in-later-x-forwarded-for-line-ignored
+//     (was a genuine defect, repaired by c43d264).
 //   - still not generated: IPv4-mapped IPv6, several X-Real-IP lines, paths
 //     with path+pathPrefix+pathRegexp at once, matchAllHeader, globalFilter,
 //     negative (stream) clientMaxBodySize, https/http3 options.
@@ -249,9 +250,9 @@ const c05MaxGen = 6
 // spread over two header LINES with only private hops in the first line and
 // the public client in the second (what a proxy that ADDS its own header line
 // produces). By RFC 7230 3.2.2 that is the list "private..., client"; the
-// address extraction reads the first line only. Fires on the unchanged tree
-// (class C05.client-in-later-x-forwarded-for-line-ignored); OFF until the
-// framework owner has decided between fix and known finding.
+// address extraction used to read the first line only (genuine defect, class
+// C05.client-in-later-x-forwarded-for-line-ignored, repaired in /repo by
+// c43d264). Permanently on.
 const c05MultiLineXFFPrivateFirst = true
 
 // c05At: the filter a slot holds in generation g.
